@@ -120,6 +120,8 @@ type conj struct {
 	group int
 }
 
+var nextGroup = 1000
+
 func exempt(label string) bool { return strings.HasPrefix(label, "_") || strings.HasPrefix(label, "#") }
 
 // parts returns the schema and everything it embeds, recursively.
@@ -246,7 +248,15 @@ func unifyStruct(cs []conj, data map[string]DVal, path string) (bool, string) {
 				recP := rec || p.Def
 				add := func(v SVal) {
 					if v.Kind == "struct" {
-						subs = append(subs, conj{s: v.S, closedRec: recP, group: c.group})
+						g := c.group
+						if v.S.CloseHere || v.S.Def && v.S.DefName != "" {
+							// a definition reference or close() call as a field
+							// value closes on its own: other declarations of the
+							// same field do not widen it
+							nextGroup++
+							g = nextGroup
+						}
+						subs = append(subs, conj{s: v.S, closedRec: recP, group: g})
 					} else {
 						scal = append(scal, v.Kind)
 					}
